@@ -2,7 +2,7 @@
     cancelled one-shot requests return.  Statements only; proofs are in GqlTyping/Proofs*.v. *)
 From Coq Require Import List ZArith String Bool Arith.
 From Thunder Require Import Lib.Json GqlTyping.Types GqlTyping.Parse GqlTyping.ProofsParse GqlTyping.ProofsCost GqlTyping.ProofsExec GqlTyping.ProofsCostPrepare GqlTyping.ProofsCostExplicit
-     GqlTyping.Conn GqlTyping.ProofsConn GqlTyping.OneShot GqlTyping.ProofsOneShot GqlTyping.Envelope GqlTyping.ProofsEnvelope.
+     GqlTyping.Conn GqlTyping.ProofsConn GqlTyping.OneShot GqlTyping.ProofsOneShot GqlTyping.Envelope GqlTyping.ProofsEnvelope GqlTyping.ConnUser.
 Import ListNotations.
 Open Scope string_scope.
 Open Scope list_scope.
@@ -146,6 +146,30 @@ Theorem resolver_panic_fails_its_request :
     lookup id (subs c') = None /\ alive c' = true.
 Proof. exact panic_fails_only_its_request. Qed.
 Print Assumptions resolver_panic_fails_its_request.
+
+(** 3b. The other user code on a computation's path: the MakeCtx hook and the MiddlewareFuncs.  As found,
+    only resolver panics are recovered: a panicking middleware or MakeCtx kills the connection's process
+    (witness; reproduced by corpus/C15/known/panic-in-middleware.json and panic-in-makectx.json) … *)
+Theorem user_code_panic_as_found_refuted :
+  alive (run_user as_found ex_conn "r0" (UPanic SMiddleware)) = false /\
+  alive (run_user as_found ex_conn "r0" (UPanic SMakeCtx)) = false /\
+  alive (run_user as_found ex_conn "r0" (UPanic SResolver)) = true /\
+  run_user with_fix6 ex_conn "r0" (UPanic SMiddleware) =
+    {| alive := true; subs := [("h1", {| s_mutation := false; s_initial := false; s_prev := Some (JNum 1%Z) |})];
+       outbox := [{| e_id := "r0"; e_type := EError; e_msg := JStr "Internal server error" |}] |}.
+Proof. exact user_as_found_dies. Qed.
+Print Assumptions user_code_panic_as_found_refuted.
+
+(** … with C15-fix-6 (RunMiddlewares recovers, MakeCtx is called through safeMakeCtx) a panic at any of
+    the three sites is contained like a resolver's, for every connection state and every outcome. *)
+Theorem user_code_panic_contained_with_fix6 :
+  forall (c : conn) (id : string) (u : uoutcome),
+    let c' := run_user with_fix6 c id u in
+    alive c' = alive c /\
+    (forall id', id' <> id -> lookup id' (subs c') = lookup id' (subs c)) /\
+    exists written, outbox c' = outbox c ++ written /\ Forall (fun e => e_id e = id) written.
+Proof. exact user_contained. Qed.
+Print Assumptions user_code_panic_contained_with_fix6.
 
 (** 4. Cancellation of a one-shot request (ServeHTTP, federation ExecuteRequest).  F23: with handlers
     that wait for the computation's signal only, "cancelled before the first run, handler waiting" is
